@@ -185,7 +185,9 @@ def literal(scanner: Scanner):
 
             # Skip escape character, if any
             scanner.eat(Chars.Backslash)
-            scanner.pos += 1
+            if not scanner.eof():
+                # A trailing backslash has nothing to escape
+                scanner.pos += 1
 
         # Do not throw if string is incomplete
         return True
